@@ -12,7 +12,8 @@ EXTRA = {"V-cms-1": ["C16"], "W-cms-3": ["C16"], "Z-cms-3": ["C06"], "Z-qf-2": [
          "C01-b": ["C01", "C13"], "C06-a": ["C06", "C16"], "C08-a": ["C08", "C03"], "C14-a": ["C14"], "C15-a": ["C15", "C14"],
          "C02-b": ["C02", "C17"], "C11-b": ["C11", "C14"],
          "C05-x": ["C05", "C11"], "C06-x": ["C06", "C10"], "C14-y": ["C14", "C19", "C11"],
-         "C01-x": ["C01", "C13"], "C01-y": ["C01", "C05"], "C16-x": ["C16", "C12"]}
+         "C01-x": ["C01", "C13"], "C01-y": ["C01", "C05"], "C16-x": ["C16", "C12"],
+         "C03-q": ["C03", "C15"], "C14-p": ["C14", "C11"]}
 
 for src in sys.argv[1:]:
     sid = os.path.basename(src.rstrip("/"))
